@@ -118,11 +118,18 @@ pub open spec fn map_small(m: Map<LayerKey, Vec<Shape>>) -> bool { forall|k: Lay
 /// raw_proto_layout (name, one layer message per distinct (layer, purpose) in first-seen order with its shapes by kind and nets,
 /// instances and annotations element-wise) — here an abstract predicate connecting the two units
 pub uninterp spec fn layout_exported(g: proto::Layout, l: Layout, lib: Library) -> bool;
+/// the layout message: the shape part (abstract here, see layout_exported), the name, one message per instance and per annotation, in order
+pub open spec fn layout_exp(g: proto::Layout, l: Layout, lib: Library) -> bool {
+    &&& layout_exported(g, l, lib) &&& g.name@ == l.name@
+    &&& g.instances@.len() == l.insts@.len() &&& forall|i: int| 0 <= i < l.insts@.len() ==> inst_exp(#[trigger] g.instances@[i], l.insts@[i])
+    &&& g.annotations@.len() == l.annotations@.len()
+    &&& forall|i: int| 0 <= i < l.annotations@.len() ==> (#[trigger] g.annotations@[i]).string@ == l.annotations@[i].string@ && g.annotations@[i].loc is Some && same_pt(g.annotations@[i].loc->0, l.annotations@[i].loc)
+}
 pub open spec fn cell_small(c: Cell) -> bool { c.abs is Some ==> abs_small(c.abs->0) }
 /// the cell message: name, and exactly the views the cell has
 pub open spec fn cell_exp(g: proto::Cell, c: Cell, lib: Library) -> bool {
     &&& g.name@ == c.name@
-    &&& (g.layout is Some <==> c.layout is Some) &&& (c.layout is Some ==> layout_exported(g.layout->0, c.layout->0, lib))
+    &&& (g.layout is Some <==> c.layout is Some) &&& (c.layout is Some ==> layout_exp(g.layout->0, c.layout->0, lib))
     &&& (g.r#abstract is Some <==> c.abs is Some) &&& (c.abs is Some ==> abs_exp(g.r#abstract->0, c.abs->0, lib))
 }
 /// the cells a cell instantiates: the dependency relation of layout21raw::data::DepOrder
@@ -136,20 +143,39 @@ pub open spec fn lib_exp(g: proto::Library, lib: Library) -> bool {
     &&& g.domain@ == lib.name@ &&& units_exp(g.units, lib.units)
     &&& exists|order: Seq<Ptr<Cell>>| is_dep_ordering(order, lib.cells@, |c: Ptr<Cell>| cell_deps(c)) && #[trigger] cells_exp(g.cells@, order, lib)
 }
-pub open spec fn lib_small(lib: Library) -> bool { forall|c: Ptr<Cell>| cell_small(#[trigger] *c.v) }
+pub open spec fn cell_deps_fn() -> spec_fn(Ptr<Cell>) -> Set<Ptr<Cell>> { |c: Ptr<Cell>| cell_deps(c) }
+/// machine-integer side condition (rectangle extents are differences of coordinates): every cell the library lists or (transitively)
+/// instantiates has abstract shapes whose coordinates leave room for that — stated over a dependency-closed set of cells holding the listed ones
+pub open spec fn small_set(s: Set<Ptr<Cell>>, lib: Library) -> bool {
+    closed_under(s, cell_deps_fn()) && covers(s, lib.cells@) && forall|c: Ptr<Cell>| s.contains(c) ==> cell_small(*(#[trigger] c.v))
+}
+pub open spec fn lib_small(lib: Library) -> bool { exists|s: Set<Ptr<Cell>>| small_set(s, lib) }
+pub proof fn lemma_order_small(order: Seq<Ptr<Cell>>, lib: Library)
+    requires lib_small(lib), only_reachable(order, lib.cells@, cell_deps_fn()),
+    ensures forall|i: int| 0 <= i < order.len() ==> cell_small(*(#[trigger] order[i]).v),
+{
+    let s = choose|s: Set<Ptr<Cell>>| small_set(s, lib);
+    assert forall|i: int| 0 <= i < order.len() implies cell_small(*(#[trigger] order[i]).v) by { assert(s.contains(order[i])); }
+}
 /// `DepOrder::order` with, as an ASSUMED contract, the contract proved for the real layout21raw::data::DepOrder::order in unit cell_order
 /// (acyclic libraries; the by-value Ptr model here cannot even express a cyclic one; cyclic libraries: finding F11)
 pub struct DepOrder;
 impl DepOrder {
     #[verifier::external_body]
-    pub fn order(lib: &Library) -> (r: Vec<Ptr<Cell>>) ensures is_dep_ordering(r@, lib.cells@, |c: Ptr<Cell>| cell_deps(c)) { unimplemented!() }
+    pub fn order(lib: &Library) -> (r: Vec<Ptr<Cell>>) ensures is_dep_ordering(r@, lib.cells@, |c: Ptr<Cell>| cell_deps(c)), only_reachable(r@, lib.cells@, cell_deps_fn()) { unimplemented!() }
 }
 impl<'lib> ProtoExporter<'lib> {
     /// ASSUMED copy of the contract proved in unit raw_proto_layout
     #[verifier::external_body]
     fn export_layout(&mut self, cell: &Layout) -> (r: LayoutResult<proto::Layout>)
-        ensures final(self).lib == old(self).lib, r is Ok ==> layout_exported(r->Ok_0, *cell, *old(self).lib),
+        ensures final(self).lib == old(self).lib, r is Ok ==> layout_exp(r->Ok_0, *cell, *old(self).lib),
     { unimplemented!() }
+//@ fn layout21raw/src/proto.rs :: impl<'lib> ProtoExporter<'lib> :: fn export
+//@   ret r
+//@   spec
+//|     requires obeys_key_model::<LayerKey>(), !(lib.units is Pico), lib_small(*lib),
+//|     ensures r is Ok ==> lib_exp(r->Ok_0, *lib),
+//@ end
 //@ fn layout21raw/src/proto.rs :: impl<'lib> ProtoExporter<'lib> :: fn export_cell
 //@   ret r
 //@   spec
@@ -159,12 +185,12 @@ impl<'lib> ProtoExporter<'lib> {
 //@ fn layout21raw/src/proto.rs :: impl<'lib> ProtoExporter<'lib> :: fn export_lib
 //@   ret r
 //@   let plib : proto::Library
-//@   sub R6 /for cell in DepOrder::order\(self\.lib\)\.iter\(\) \{/ => let vp_order = DepOrder::order(self.lib); for cell in vp_order.iter() {
+//@   sub R6 /for cell in DepOrder::order\(self\.lib\)\.iter\(\) \{/ => let vp_order = DepOrder::order(self.lib); proof { lemma_order_small(vp_order@, *self.lib); } for cell in vp_order.iter() {
 //@   spec
 //|     requires obeys_key_model::<LayerKey>(), !(old(self).lib.units is Pico), lib_small(*old(self).lib),
 //|     ensures r is Ok ==> lib_exp(r->Ok_0, *old(self).lib),
 //@   loop 1 iter it
-//|             invariant self.lib == old(self).lib, obeys_key_model::<LayerKey>(), lib_small(*self.lib), plib.domain@ == self.lib.name@, units_exp(plib.units, self.lib.units),
+//|             invariant self.lib == old(self).lib, obeys_key_model::<LayerKey>(), forall|i: int| 0 <= i < vp_order@.len() ==> cell_small(*(#[trigger] vp_order@[i]).v), plib.domain@ == self.lib.name@, units_exp(plib.units, self.lib.units),
 //|                 plib.cells@.len() == it.index@, it.index@ <= vp_order@.len(),
 //|                 forall|i: int| 0 <= i < it.index@ ==> cell_exp(#[trigger] plib.cells@[i], *vp_order@[i].v, *self.lib),
 //@   before /let pcell = self\.export_cell\(&\*cell\)\?;/
@@ -268,5 +294,449 @@ impl<'lib> ProtoExporter<'lib> {
 //|         r is Ok ==> r->Ok_0.number == nums(*old(self).lib, *layer, *purpose)->Some_0.0 && r->Ok_0.purpose == nums(*old(self).lib, *layer, *purpose)->Some_0.1,
 //@ end
 }
+
+// =====================================================================================================
+// IMPORTER
+// =====================================================================================================
+impl proto::Units {
+    /// model of the prost-generated `from_i32`
+    pub fn from_i32(v: i32) -> (r: Option<proto::Units>)
+        ensures (r is Some) == (0 <= v <= 2), r is Some ==> units_num(r->0) == v,
+    { if v == 0 { Some(proto::Units::Micro) } else if v == 1 { Some(proto::Units::Nano) } else if v == 2 { Some(proto::Units::Angstrom) } else { None } }
+}
+/// model of #[derive(Default)] on the two abstract-view structs
+impl Default for AbstractPort { fn default() -> (r: Self) ensures r.net@.len() == 0, r.shapes@ == Map::<LayerKey, Vec<Shape>>::empty() { AbstractPort { net: String::new(), shapes: HashMap::new() } } }
+impl Default for Abstract { fn default() -> (r: Self) ensures r.name@.len() == 0, r.outline.points@.len() == 0, r.ports@.len() == 0, r.blockages@ == Map::<LayerKey, Vec<Shape>>::empty() { Abstract { name: String::new(), outline: Polygon { points: Vec::new() }, ports: Vec::new(), blockages: HashMap::new() } } }
+impl Cell {
+    /// model of Cell::new(impl Into<String>): the name, no views (`..Default::default()`)
+    #[verifier::external_body]
+    pub fn new(name: &String) -> (r: Self) ensures r.name@ == name@, r.abs is None, r.layout is None { unimplemented!() }
+}
+/// the layer key the abstract importer files a layer message under: `get_or_insert(number as i16, purpose as i16)` (note the truncating casts)
+pub open spec fn lkey_of(g: proto::LayerShapes) -> LayerKey { layer_of((g.layer->0.number as i16) as i64, (g.layer->0.purpose as i16) as i64).0 }
+/// `ss` is the import of one abstract layer message: its rectangles, then its polygons, then its paths
+pub open spec fn ashapes_are(ss: Seq<Shape>, l: proto::LayerShapes) -> bool {
+    &&& ss.len() == chunk_len(l)
+    &&& forall|i: int| 0 <= i < l.rectangles@.len() ==> rect_imp(#[trigger] ss[i], l.rectangles@[i])
+    &&& forall|i: int| 0 <= i < l.polygons@.len() ==> poly_imp(#[trigger] ss[l.rectangles@.len() + i], l.polygons@[i])
+    &&& forall|i: int| 0 <= i < l.paths@.len() ==> path_imp(#[trigger] ss[l.rectangles@.len() + l.polygons@.len() + i], l.paths@[i])
+}
+/// message `i` is the last of the first `n` messages filed under its layer key (HashMap::insert: the last one wins)
+pub open spec fn last_of(gs: Seq<proto::LayerShapes>, n: int, i: int) -> bool { 0 <= i < n && forall|j: int| i < j < n ==> lkey_of(#[trigger] gs[j]) != lkey_of(gs[i]) }
+/// the layer -> shapes map built from the first `n` layer messages: exactly their keys, each key holding the import of its last message
+pub open spec fn layer_map_imp(m: Map<LayerKey, Vec<Shape>>, gs: Seq<proto::LayerShapes>, n: int) -> bool {
+    &&& forall|k: LayerKey| #[trigger] m.dom().contains(k) ==> exists|i: int| 0 <= i < n && lkey_of(#[trigger] gs[i]) == k
+    &&& forall|i: int| 0 <= i < n ==> m.dom().contains(lkey_of(#[trigger] gs[i]))
+    &&& forall|i: int| #[trigger] last_of(gs, n, i) ==> ashapes_are(m[lkey_of(gs[i])]@, gs[i])
+}
+pub proof fn lemma_layer_map_step(m: Map<LayerKey, Vec<Shape>>, gs: Seq<proto::LayerShapes>, n: int, v: Vec<Shape>)
+    requires layer_map_imp(m, gs, n), 0 <= n < gs.len(), ashapes_are(v@, gs[n]),
+    ensures layer_map_imp(m.insert(lkey_of(gs[n]), v), gs, n + 1),
+{
+    let m1 = m.insert(lkey_of(gs[n]), v);
+    assert forall|k: LayerKey| #[trigger] m1.dom().contains(k) implies exists|i: int| 0 <= i < n + 1 && lkey_of(#[trigger] gs[i]) == k by {
+        if k == lkey_of(gs[n]) { } else { assert(m.dom().contains(k)); let i = choose|i: int| 0 <= i < n && lkey_of(#[trigger] gs[i]) == k; assert(0 <= i < n + 1 && lkey_of(gs[i]) == k); }
+    }
+    assert forall|i: int| #[trigger] last_of(gs, n + 1, i) implies ashapes_are(m1[lkey_of(gs[i])]@, gs[i]) by {
+        if i < n { assert(lkey_of(gs[n]) != lkey_of(gs[i])); assert(last_of(gs, n, i)); }
+    }
+}
+pub open spec fn port_imp(p: AbstractPort, g: proto::AbstractPort) -> bool { p.net@ == g.net@ && layer_map_imp(p.shapes@, g.shapes@, g.shapes@.len() as int) }
+pub open spec fn abs_imp(a: Abstract, g: proto::Abstract) -> bool {
+    &&& a.name@ == g.name@ &&& g.outline is Some && same_pts(g.outline->0.vertices@, a.outline.points@)
+    &&& a.ports@.len() == g.ports@.len() &&& forall|i: int| 0 <= i < g.ports@.len() ==> port_imp(#[trigger] a.ports@[i], g.ports@[i])
+    &&& layer_map_imp(a.blockages@, g.blockages@, g.blockages@.len() as int)
+}
+/// supported subset + machine-integer side conditions of an abstract message: every layer message names its layer, the outline is present
+/// (the importer `unwrap()`s both), rectangle coordinates leave room for corner arithmetic
+pub open spec fn lmsgs_ok(gs: Seq<proto::LayerShapes>) -> bool { forall|i: int| 0 <= i < gs.len() ==> (#[trigger] gs[i]).layer is Some && layer_small(gs[i]) }
+pub open spec fn abs_msg_ok(g: proto::Abstract) -> bool { g.outline is Some && lmsgs_ok(g.blockages@) && forall|i: int| 0 <= i < g.ports@.len() ==> lmsgs_ok((#[trigger] g.ports@[i]).shapes@) }
+pub open spec fn cell_msg_ok(g: proto::Cell) -> bool { (g.r#abstract is Some ==> abs_msg_ok(g.r#abstract->0)) && (g.layout is Some ==> layers_small(g.layout->0.shapes@)) }
+/// the imported cell: the message's name and exactly the views the message has
+pub open spec fn cell_imp(c: Cell, g: proto::Cell, m: CellMap) -> bool {
+    &&& c.name@ == g.name@
+    &&& (c.layout is Some <==> g.layout is Some) &&& (g.layout is Some ==> layout_imp(c.layout->0, g.layout->0, m))
+    &&& (c.abs is Some <==> g.r#abstract is Some) &&& (g.r#abstract is Some ==> abs_imp(c.abs->0, g.r#abstract->0))
+}
+/// what the cell map answers for name `q` once the first `n` cell messages have been imported on top of map `m0`
+pub open spec fn lk_after(m0: CellMap, pcells: Seq<proto::Cell>, cells: Seq<Ptr<Cell>>, n: nat, q: Seq<char>) -> Option<Ptr<Cell>>
+    decreases n
+{
+    if n == 0 { m0.lookup(q) } else if pcells[n - 1].name@ == q { Some(cells[n - 1]) } else { lk_after(m0, pcells, cells, (n - 1) as nat, q) }
+}
+pub open spec fn map_is(m: CellMap, m0: CellMap, pcells: Seq<proto::Cell>, cells: Seq<Ptr<Cell>>, n: nat) -> bool {
+    forall|q: Seq<char>| #[trigger] m.lookup(q) == lk_after(m0, pcells, cells, n, q)
+}
+/// cell `i` of the library is message `i` imported against the map holding exactly the earlier messages' cells
+pub open spec fn cell_imported(cells: Seq<Ptr<Cell>>, pcells: Seq<proto::Cell>, m0: CellMap, i: int) -> bool {
+    exists|m: CellMap| map_is(m, m0, pcells, cells, i as nat) && #[trigger] cell_imp(*cells[i].v, pcells[i], m)
+}
+/// the imported library: name, units, one cell per message in order, and the name -> cell map of all of them
+pub open spec fn lib_imp(lib: Library, plib: proto::Library, m0: CellMap, m1: CellMap) -> bool {
+    &&& lib.name@ == plib.domain@ &&& units_exp(plib.units, lib.units) &&& lib.cells@.len() == plib.cells@.len()
+    &&& forall|i: int| 0 <= i < plib.cells@.len() ==> #[trigger] cell_imported(lib.cells@, plib.cells@, m0, i)
+    &&& map_is(m1, m0, plib.cells@, lib.cells@, plib.cells@.len())
+}
+pub proof fn lemma_lk_ext(m0: CellMap, pcells: Seq<proto::Cell>, c1: Seq<Ptr<Cell>>, c2: Seq<Ptr<Cell>>, n: nat, q: Seq<char>)
+    requires n <= c1.len(), n <= c2.len(), forall|k: int| 0 <= k < n ==> c1[k] == c2[k],
+    ensures lk_after(m0, pcells, c1, n, q) == lk_after(m0, pcells, c2, n, q),
+    decreases n
+{
+    if n > 0 { lemma_lk_ext(m0, pcells, c1, c2, (n - 1) as nat, q); }
+}
+impl ProtoImporter {
+    /// R5: `self.layers.write().unwrap().get_or_insert(*number as i16, *purpose as i16).unwrap()` with `number`, `purpose` destructured from
+    /// `layershapes.layer.as_ref().unwrap()` — the shared layer table modelled, as for import_layer, by the function `layer_of`
+    #[verifier::external_body]
+    fn vp_layer_key(&mut self, ls: &proto::LayerShapes) -> (r: (LayerKey, LayerPurpose))
+        requires ls.layer is Some,
+        ensures r.0 == lkey_of(*ls), final(self).cell_map == old(self).cell_map, final(self).lib == old(self).lib, final(self).ctx == old(self).ctx,
+    { unimplemented!() }
+//@ fn layout21raw/src/proto.rs :: impl ProtoImporter :: fn import_units
+//@   ret r
+//@   spec
+//|     ensures final(self).cell_map == old(self).cell_map, final(self).lib == old(self).lib, (r is Ok) == (0 <= punits <= 2), r is Ok ==> units_exp(punits, r->Ok_0),
+//@ end
+//@ fn layout21raw/src/proto.rs :: impl ProtoImporter :: fn import_abstract_layer_shapes
+//@   ret r
+//@   sub R6 /for shape in &player\.rectangles \{/ => for shape in player.rectangles.iter() {
+//@   sub R6 /for shape in &player\.polygons \{/ => for shape in player.polygons.iter() {
+//@   sub R6 /for shape in &player\.paths \{/ => for shape in player.paths.iter() {
+//@   spec
+//|     requires layer_small(*player),
+//|     ensures final(self).cell_map == old(self).cell_map, final(self).lib == old(self).lib, r is Ok ==> final(self).ctx@ == old(self).ctx@ && ashapes_are(r->Ok_0@, *player),
+//@   loop 1 iter it
+//|             invariant self.cell_map == old(self).cell_map, self.lib == old(self).lib, self.ctx@ == old(self).ctx@.push(ErrorContext::Geometry), layer_small(*player), it.index@ <= player.rectangles@.len(),
+//|                 shapes@.len() == it.index@, forall|i: int| 0 <= i < it.index@ ==> rect_imp(#[trigger] shapes@[i], player.rectangles@[i]),
+//@   loop 2 iter it
+//|             invariant self.cell_map == old(self).cell_map, self.lib == old(self).lib, self.ctx@ == old(self).ctx@.push(ErrorContext::Geometry), it.index@ <= player.polygons@.len(),
+//|                 shapes@.len() == player.rectangles@.len() + it.index@,
+//|                 forall|i: int| 0 <= i < player.rectangles@.len() ==> rect_imp(#[trigger] shapes@[i], player.rectangles@[i]),
+//|                 forall|i: int| 0 <= i < it.index@ ==> poly_imp(#[trigger] shapes@[player.rectangles@.len() + i], player.polygons@[i]),
+//@   loop 3 iter it
+//|             invariant self.cell_map == old(self).cell_map, self.lib == old(self).lib, self.ctx@ == old(self).ctx@.push(ErrorContext::Geometry), it.index@ <= player.paths@.len(),
+//|                 shapes@.len() == player.rectangles@.len() + player.polygons@.len() + it.index@,
+//|                 forall|i: int| 0 <= i < player.rectangles@.len() ==> rect_imp(#[trigger] shapes@[i], player.rectangles@[i]),
+//|                 forall|i: int| 0 <= i < player.polygons@.len() ==> poly_imp(#[trigger] shapes@[player.rectangles@.len() + i], player.polygons@[i]),
+//|                 forall|i: int| 0 <= i < it.index@ ==> path_imp(#[trigger] shapes@[player.rectangles@.len() + player.polygons@.len() + i], player.paths@[i]),
+//@   before /^        Ok\(shapes\)$/
+//|         proof { assert(self.ctx@ =~= old(self).ctx@); }
+//@ end
+//@ fn layout21raw/src/proto.rs :: impl ProtoImporter :: fn import_abstract_port
+//@   ret r
+//@   sub R5 /let proto::Layer \{ number, purpose \} = layershapes\.layer\.as_ref\(\)\.unwrap\(\);\s*let \(layerkey, _\) = self\s*\.layers\s*\.write\(\)\s*\.unwrap\(\)\s*\.get_or_insert\(\*number as i16, \*purpose as i16\)\s*\.unwrap\(\);/ => let (layerkey, _) = self.vp_layer_key(layershapes);
+//@   spec
+//|     requires obeys_key_model::<LayerKey>(), lmsgs_ok(pport.shapes@),
+//|     ensures final(self).cell_map == old(self).cell_map, final(self).lib == old(self).lib, r is Ok ==> final(self).ctx@ == old(self).ctx@ && port_imp(r->Ok_0, *pport),
+//@   loop 1 iter it
+//|             invariant self.cell_map == old(self).cell_map, self.lib == old(self).lib, self.ctx@ == old(self).ctx@, obeys_key_model::<LayerKey>(), lmsgs_ok(pport.shapes@), port.net@ == pport.net@,
+//|                 it.index@ <= pport.shapes@.len(), layer_map_imp(port.shapes@, pport.shapes@, it.index@ as int),
+//@   before /port\.shapes\.insert\(layerkey, shapes\);/
+//|             proof { lemma_layer_map_step(port.shapes@, pport.shapes@, it.index@ as int, shapes); }
+//@ end
+//@ fn layout21raw/src/proto.rs :: impl ProtoImporter :: fn import_abstract
+//@   ret r
+//@   sub R5 /let proto::Layer \{ number, purpose \} = layershapes\.layer\.as_ref\(\)\.unwrap\(\);\s*let \(layerkey, _\) = self\s*\.layers\s*\.write\(\)\s*\.unwrap\(\)\s*\.get_or_insert\(\*number as i16, \*purpose as i16\)\s*\.unwrap\(\);/ => let (layerkey, _) = self.vp_layer_key(layershapes);
+//@   spec
+//|     requires obeys_key_model::<LayerKey>(), abs_msg_ok(*pabs),
+//|     ensures final(self).cell_map == old(self).cell_map, final(self).lib == old(self).lib, r is Ok ==> abs_imp(r->Ok_0, *pabs),
+//@   loop 1 iter it
+//|             invariant self.cell_map == old(self).cell_map, self.lib == old(self).lib, obeys_key_model::<LayerKey>(), abs_msg_ok(*pabs), abs.name@ == pabs.name@, abs.blockages@ == Map::<LayerKey, Vec<Shape>>::empty(),
+//|                 it.index@ <= pabs.ports@.len(), abs.ports@.len() == it.index@, forall|i: int| 0 <= i < it.index@ ==> port_imp(#[trigger] abs.ports@[i], pabs.ports@[i]),
+//@   loop 2 iter it
+//|             invariant self.cell_map == old(self).cell_map, self.lib == old(self).lib, obeys_key_model::<LayerKey>(), abs_msg_ok(*pabs), abs.name@ == pabs.name@,
+//|                 abs.ports@.len() == pabs.ports@.len(), forall|i: int| 0 <= i < pabs.ports@.len() ==> port_imp(#[trigger] abs.ports@[i], pabs.ports@[i]),
+//|                 it.index@ <= pabs.blockages@.len(), layer_map_imp(abs.blockages@, pabs.blockages@, it.index@ as int),
+//@   before /abs\.blockages\.insert\(layerkey, shapes\);/
+//|             proof { lemma_layer_map_step(abs.blockages@, pabs.blockages@, it.index@ as int, shapes); }
+//@ end
+//@ fn layout21raw/src/proto.rs :: impl ProtoImporter :: fn import_lib
+//@   ret r
+//@   sub R6 /for cell in &plib\.cells \{/ => for cell in plib.cells.iter() {
+//@   spec
+//|     requires obeys_key_model::<LayerKey>(), old(self).lib.cells@.len() == 0, forall|i: int| 0 <= i < plib.cells@.len() ==> cell_msg_ok(#[trigger] plib.cells@[i]),
+//|     ensures r is Ok ==> lib_imp(final(self).lib, *plib, old(self).cell_map, final(self).cell_map),
+//|         !(0 <= plib.units <= 2) ==> r is Err,
+//@   loop 1 iter it
+//|             invariant obeys_key_model::<LayerKey>(), forall|i: int| 0 <= i < plib.cells@.len() ==> cell_msg_ok(#[trigger] plib.cells@[i]),
+//|                 self.lib.name@ == plib.domain@, units_exp(plib.units, self.lib.units), self.lib.cells@.len() == it.index@, it.index@ <= plib.cells@.len(),
+//|                 forall|i: int| 0 <= i < it.index@ ==> #[trigger] cell_imported(self.lib.cells@, plib.cells@, old(self).cell_map, i),
+//|                 map_is(self.cell_map, old(self).cell_map, plib.cells@, self.lib.cells@, it.index@ as nat),
+//@   before1 /let cell = self\.import_cell\(/
+//|             let ghost m_prev = self.cell_map; let ghost cells_prev = self.lib.cells@; let ghost n = it.index@;
+//@   after1 /self\.cell_map\.insert\(/
+//|             proof {
+//|                 let m0 = old(self).cell_map; let pc = plib.cells@; let cs = self.lib.cells@;
+//|                 assert forall|q: Seq<char>| #[trigger] lk_after(m0, pc, cells_prev, n as nat, q) == lk_after(m0, pc, cs, n as nat, q) by { lemma_lk_ext(m0, pc, cells_prev, cs, n as nat, q); }
+//|                 assert(map_is(m_prev, m0, pc, cs, n as nat));
+//|                 assert(cell_imp(*cs[n].v, pc[n], m_prev));
+//|                 assert(cell_imported(cs, pc, m0, n));
+//|                 assert forall|i: int| 0 <= i < n implies #[trigger] cell_imported(cs, pc, m0, i) by {
+//|                     assert(cell_imported(cells_prev, pc, m0, i));
+//|                     let m = choose|m: CellMap| map_is(m, m0, pc, cells_prev, i as nat) && #[trigger] cell_imp(*cells_prev[i].v, pc[i], m);
+//|                     assert forall|q: Seq<char>| #[trigger] m.lookup(q) == lk_after(m0, pc, cs, i as nat, q) by { lemma_lk_ext(m0, pc, cells_prev, cs, i as nat, q); }
+//|                     assert(map_is(m, m0, pc, cs, i as nat) && cell_imp(*cs[i].v, pc[i], m));
+//|                 }
+//|             }
+//@ end
+//@ fn layout21raw/src/proto.rs :: impl ProtoImporter :: fn import_cell
+//@   ret r
+//@   spec
+//|     requires obeys_key_model::<LayerKey>(), cell_msg_ok(*pcell),
+//|     ensures final(self).cell_map == old(self).cell_map, final(self).lib == old(self).lib, r is Ok ==> cell_imp(r->Ok_0, *pcell, old(self).cell_map),
+//@ end
+}
+
+// =====================================================================================================
+// THEOREMS over the contracts (C14)
+// =====================================================================================================
+/// a name defined by one of the first `n` messages is found in the map built from them
+pub proof fn lemma_lk_some(m0: CellMap, pcells: Seq<proto::Cell>, cells: Seq<Ptr<Cell>>, n: nat, j: int)
+    requires 0 <= j < n,
+    ensures lk_after(m0, pcells, cells, n, pcells[j].name@) is Some,
+    decreases n
+{
+    if pcells[n - 1].name@ != pcells[j].name@ { lemma_lk_some(m0, pcells, cells, (n - 1) as nat, j); }
+}
+/// THEOREM (C14 "exported libraries always list a cell after the cells it instantiates, so export followed by import never fails on an
+/// undefined reference"): in an exported library message every instance of message i's layout names a cell defined by an EARLIER message;
+/// hence the importer's cell map answers that name when message i is imported
+pub proof fn theorem_export_resolvable(g: proto::Library, lib: Library, m0: CellMap, cells: Seq<Ptr<Cell>>, i: int, k: int)
+    requires lib_exp(g, lib), 0 <= i < g.cells@.len(), g.cells@[i].layout is Some, 0 <= k < g.cells@[i].layout->0.instances@.len(),
+    ensures ({
+        let gi = g.cells@[i].layout->0.instances@[k];
+        &&& gi.cell is Some && gi.cell->0.to is Some && gi.cell->0.to->0 is Local
+        &&& exists|j: int| 0 <= j < i && (#[trigger] g.cells@[j]).name@ == gi.cell->0.to->0->Local_0@
+        &&& lk_after(m0, g.cells@, cells, i as nat, gi.cell->0.to->0->Local_0@) is Some
+    }),
+{
+    let order = choose|order: Seq<Ptr<Cell>>| is_dep_ordering(order, lib.cells@, |c: Ptr<Cell>| cell_deps(c)) && #[trigger] cells_exp(g.cells@, order, lib);
+    let c = *order[i].v;
+    assert(cell_exp(g.cells@[i], c, lib));
+    let l = c.layout->0;
+    let gi = g.cells@[i].layout->0.instances@[k];
+    assert(inst_exp(gi, l.insts@[k]));
+    let dep = l.insts@[k].cell;
+    assert(cell_dep_seq(l)[k] == dep);
+    assert(cell_deps(order[i]).contains(dep));
+    let f = |c: Ptr<Cell>| cell_deps(c);
+    assert(f(order[i]).subset_of(order.take(i).to_set()));
+    assert(order.take(i).contains(dep));
+    let j = choose|j: int| 0 <= j < order.take(i).len() && order.take(i)[j] == dep;
+    assert(order[j] == dep);
+    assert(cell_exp(g.cells@[j], *order[j].v, lib));
+    lemma_lk_some(m0, g.cells@, cells, i as nat, j);
+}
+/// the layer table gives every (key, purpose) it numbers a pair that the importer's lookup maps back to that key — assumption of the
+/// round trip (one table used both ways, one layer per number)
+pub open spec fn table_ok(lib: Library, p: LayerPurpose) -> bool {
+    forall|k: LayerKey| (#[trigger] nums(lib, k, p)) is Some ==> layer_of(nums(lib, k, p)->Some_0.0 as i64, nums(lib, k, p)->Some_0.1 as i64).0 == k
+}
+/// same shape up to the schema's rectangle normalisation (lower-left corner + extents)
+pub open spec fn shape_same(a: Shape, b: Shape) -> bool {
+    match a {
+        Shape::Rect(ra) => b is Rect && imin(b->Rect_0.p0.x as int, b->Rect_0.p1.x as int) == imin(ra.p0.x as int, ra.p1.x as int) && imax(b->Rect_0.p0.x as int, b->Rect_0.p1.x as int) == imax(ra.p0.x as int, ra.p1.x as int)
+            && imin(b->Rect_0.p0.y as int, b->Rect_0.p1.y as int) == imin(ra.p0.y as int, ra.p1.y as int) && imax(b->Rect_0.p0.y as int, b->Rect_0.p1.y as int) == imax(ra.p0.y as int, ra.p1.y as int),
+        Shape::Polygon(pa) => b is Polygon && pa.points@ =~= b->Polygon_0.points@,
+        Shape::Path(pa) => b is Path && pa.points@ =~= b->Path_0.points@ && pa.width == b->Path_0.width,
+    }
+}
+/// `ss2` is `ss` regrouped by kind (rectangles, polygons, paths; each kind in its original order), shape for shape the same
+pub open spec fn shapes_rt(ss: Seq<Shape>, ss2: Seq<Shape>) -> bool {
+    let n0 = skind(ss, 0).len(); let n1 = skind(ss, 1).len(); let n2 = skind(ss, 2).len();
+    &&& ss2.len() == n0 + n1 + n2
+    &&& forall|i: int| 0 <= i < n0 ==> shape_same(skind(ss, 0)[i], #[trigger] ss2[i])
+    &&& forall|i: int| 0 <= i < n1 ==> shape_same(skind(ss, 1)[i], #[trigger] ss2[n0 + i])
+    &&& forall|i: int| 0 <= i < n2 ==> shape_same(skind(ss, 2)[i], #[trigger] ss2[n0 + n1 + i])
+}
+pub proof fn lemma_skind_kind(ss: Seq<Shape>, kind: int, i: int)
+    requires 0 <= i < skind(ss, kind).len(),
+    ensures kind == 0 ==> skind(ss, kind)[i] is Rect, kind == 1 ==> skind(ss, kind)[i] is Polygon, kind == 2 ==> skind(ss, kind)[i] is Path,
+    decreases ss.len()
+{
+    if ss.len() > 0 {
+        let h = skind(ss.drop_last(), kind);
+        if i < h.len() { lemma_skind_kind(ss.drop_last(), kind, i); }
+    }
+}
+pub proof fn lemma_same_pts_eq(g: Seq<proto::Point>, a: Seq<Point>, b: Seq<Point>)
+    requires same_pts(g, a), same_pts(g, b),
+    ensures a =~= b,
+{
+    assert forall|i: int| 0 <= i < a.len() implies a[i] == b[i] by { assert(same_pt(g[i], a[i])); assert(same_pt(g[i], b[i])); }
+}
+/// one layer message, exported from `ss` and imported back as `ss2`
+pub proof fn lemma_shapes_roundtrip(g: proto::LayerShapes, k: LKey, ss: Seq<Shape>, ss2: Seq<Shape>)
+    requires shapes_msg_is(g, k, ss), ashapes_are(ss2, g),
+    ensures shapes_rt(ss, ss2),
+{
+    let n0 = skind(ss, 0).len(); let n1 = skind(ss, 1).len();
+    assert forall|i: int| 0 <= i < n0 implies shape_same(skind(ss, 0)[i], #[trigger] ss2[i]) by {
+        lemma_skind_kind(ss, 0, i); assert(rect_is(g.rectangles@[i], skind(ss, 0)[i]->Rect_0)); assert(rect_imp(ss2[i], g.rectangles@[i]));
+    }
+    assert forall|i: int| 0 <= i < n1 implies shape_same(skind(ss, 1)[i], #[trigger] ss2[n0 + i]) by {
+        lemma_skind_kind(ss, 1, i); assert(poly_is(g.polygons@[i], skind(ss, 1)[i]->Polygon_0)); assert(poly_imp(ss2[n0 + i], g.polygons@[i]));
+        lemma_same_pts_eq(g.polygons@[i].vertices@, skind(ss, 1)[i]->Polygon_0.points@, ss2[n0 + i]->Polygon_0.points@);
+    }
+    assert forall|i: int| 0 <= i < skind(ss, 2).len() implies shape_same(skind(ss, 2)[i], #[trigger] ss2[n0 + n1 + i]) by {
+        lemma_skind_kind(ss, 2, i); assert(path_is(g.paths@[i], skind(ss, 2)[i]->Path_0)); assert(path_imp(ss2[n0 + n1 + i], g.paths@[i]));
+        lemma_same_pts_eq(g.paths@[i].points@, skind(ss, 2)[i]->Path_0.points@, ss2[n0 + n1 + i]->Path_0.points@);
+    }
+}
+/// THEOREM (C14, abstracts, raw -> protobuf -> raw): a layer -> shapes map exported (in whatever order the HashMap iterates) and imported
+/// back has exactly the same layer keys, each with the same shapes (regrouped by kind)
+pub proof fn theorem_layer_map_roundtrip(gs: Seq<proto::LayerShapes>, m: Map<LayerKey, Vec<Shape>>, m2: Map<LayerKey, Vec<Shape>>, lib: Library, p: LayerPurpose)
+    requires layer_map_exp(gs, m, lib, p), layer_map_imp(m2, gs, gs.len() as int), table_ok(lib, p), m.dom().finite(),
+    ensures m2.dom() =~= m.dom(), forall|k: LayerKey| m.dom().contains(k) ==> shapes_rt(m[k]@, #[trigger] m2[k]@),
+{
+    let keys = choose|keys: Seq<LayerKey>| #[trigger] entries_exp(gs, keys, m, lib, p);
+    // message i is filed back under keys[i]
+    assert forall|i: int| 0 <= i < keys.len() implies lkey_of(#[trigger] gs[i]) == keys[i] by {
+        assert(m.dom().contains(keys[i])); assert(shapes_msg_is(gs[i], nums(lib, keys[i], p)->0, m[keys[i]]@));
+    }
+    // the keys enumerate the whole domain (duplicate-free, as many as the domain)
+    keys.unique_seq_to_set();
+    assert(keys.to_set().subset_of(m.dom())) by { assert forall|k: LayerKey| keys.to_set().contains(k) implies m.dom().contains(k) by { let i = choose|i: int| 0 <= i < keys.len() && keys[i] == k; assert(m.dom().contains(keys[i])); } }
+    vstd::set_lib::lemma_subset_equality(keys.to_set(), m.dom());
+    assert forall|k: LayerKey| m2.dom().contains(k) <==> m.dom().contains(k) by {
+        if m2.dom().contains(k) { let i = choose|i: int| 0 <= i < gs.len() && lkey_of(#[trigger] gs[i]) == k; assert(m.dom().contains(keys[i])); }
+        if m.dom().contains(k) { assert(keys.to_set().contains(k)); let i = choose|i: int| 0 <= i < keys.len() && keys[i] == k; assert(m2.dom().contains(lkey_of(gs[i]))); }
+    }
+    assert forall|k: LayerKey| m.dom().contains(k) implies shapes_rt(m[k]@, #[trigger] m2[k]@) by {
+        assert(keys.to_set().contains(k)); let i = choose|i: int| 0 <= i < keys.len() && keys[i] == k;
+        assert(last_of(gs, gs.len() as int, i)) by { assert forall|j: int| i < j < gs.len() implies lkey_of(#[trigger] gs[j]) != lkey_of(gs[i]) by { assert(keys[j] != keys[i]); } }
+        assert(m.dom().contains(keys[i]));
+        lemma_shapes_roundtrip(gs[i], nums(lib, keys[i], p)->0, m[k]@, m2[k]@);
+    }
+}
+
+// ---- library-level round trip: a pure consequence of the two converters' contracts ----
+pub open spec fn deg(a: Option<f64>) -> Option<i32> { match a { None => Some(0i32), Some(x) => whole_degrees(x) } }
+pub open spec fn inst_same(a: Instance, b: Instance) -> bool {
+    &&& a.inst_name@ == b.inst_name@ &&& a.reflect_vert == b.reflect_vert &&& a.loc == b.loc &&& (*a.cell.v).name@ == (*b.cell.v).name@ &&& deg(a.angle) == deg(b.angle)
+}
+/// name, instances and annotations (the shapes of a layout: units raw_proto / raw_proto_layout)
+pub open spec fn layout_same(a: Layout, b: Layout) -> bool {
+    &&& a.name@ == b.name@
+    &&& a.insts@.len() == b.insts@.len() &&& forall|i: int| 0 <= i < a.insts@.len() ==> inst_same(#[trigger] a.insts@[i], b.insts@[i])
+    &&& a.annotations@.len() == b.annotations@.len() &&& forall|i: int| 0 <= i < a.annotations@.len() ==> (#[trigger] a.annotations@[i]).string@ == b.annotations@[i].string@ && a.annotations@[i].loc == b.annotations@[i].loc
+}
+pub open spec fn map_same(m: Map<LayerKey, Vec<Shape>>, m2: Map<LayerKey, Vec<Shape>>) -> bool { m2.dom() =~= m.dom() && forall|k: LayerKey| m.dom().contains(k) ==> shapes_rt(m[k]@, #[trigger] m2[k]@) }
+pub open spec fn abs_same(a: Abstract, b: Abstract) -> bool {
+    &&& a.name@ == b.name@ &&& a.outline.points@ =~= b.outline.points@
+    &&& a.ports@.len() == b.ports@.len() &&& forall|i: int| 0 <= i < a.ports@.len() ==> (#[trigger] a.ports@[i]).net@ == b.ports@[i].net@ && map_same(a.ports@[i].shapes@, b.ports@[i].shapes@)
+    &&& map_same(a.blockages@, b.blockages@)
+}
+pub open spec fn cell_same(a: Cell, b: Cell) -> bool {
+    &&& a.name@ == b.name@ &&& (a.layout is Some <==> b.layout is Some) &&& (a.layout is Some ==> layout_same(a.layout->0, b.layout->0))
+    &&& (a.abs is Some <==> b.abs is Some) &&& (a.abs is Some ==> abs_same(a.abs->0, b.abs->0))
+}
+pub open spec fn cells_same(order: Seq<Ptr<Cell>>, cells: Seq<Ptr<Cell>>) -> bool { order.len() == cells.len() && forall|i: int| 0 <= i < order.len() ==> cell_same(*(#[trigger] order[i]).v, *cells[i].v) }
+/// over an initially empty map, a successful lookup after `n` messages yields the cell of a message (among the first n) with that name
+pub proof fn lemma_lk_hit(m0: CellMap, pcells: Seq<proto::Cell>, cells: Seq<Ptr<Cell>>, n: nat, q: Seq<char>)
+    requires forall|x: Seq<char>| #[trigger] m0.lookup(x) is None, lk_after(m0, pcells, cells, n, q) is Some,
+    ensures exists|j: int| 0 <= j < n && (#[trigger] pcells[j]).name@ == q && lk_after(m0, pcells, cells, n, q) == Some(cells[j]),
+    decreases n
+{
+    if n > 0 && pcells[n - 1].name@ != q {
+        lemma_lk_hit(m0, pcells, cells, (n - 1) as nat, q);
+        let j = choose|j: int| 0 <= j < n - 1 && (#[trigger] pcells[j]).name@ == q && lk_after(m0, pcells, cells, (n - 1) as nat, q) == Some(cells[j]);
+        assert(0 <= j < n && pcells[j].name@ == q);
+    } else if n > 0 { assert(pcells[n - 1].name@ == q); }
+}
+/// float side (f64 is opaque to the verifier): converting whole degrees to f64 and back is exact — assumption of the round trip
+pub open spec fn degrees_exact() -> bool { forall|d: i32| whole_degrees(#[trigger] degrees_f64(d)) == Some(d) }
+pub proof fn lemma_layout_roundtrip(a: Layout, g: proto::Layout, b: Layout, lib: Library, m: CellMap, m0: CellMap, pcells: Seq<proto::Cell>, cells: Seq<Ptr<Cell>>, n: nat)
+    requires layout_exp(g, a, lib), layout_imp(b, g, m), map_is(m, m0, pcells, cells, n), forall|x: Seq<char>| #[trigger] m0.lookup(x) is None, degrees_exact(),
+        n <= cells.len(), n <= pcells.len(), forall|j: int| 0 <= j < n ==> (*(#[trigger] cells[j]).v).name@ == pcells[j].name@,
+    ensures layout_same(a, b),
+{
+    assert forall|i: int| 0 <= i < a.insts@.len() implies inst_same(#[trigger] a.insts@[i], b.insts@[i]) by {
+        assert(inst_exp(g.instances@[i], a.insts@[i]));
+        assert(inst_imp(b.insts@[i], g.instances@[i], m));
+        let q = g.instances@[i].cell->0.to->0->Local_0@;
+        assert(m.lookup(q) == lk_after(m0, pcells, cells, n, q));
+        lemma_lk_hit(m0, pcells, cells, n, q);
+    }
+    assert forall|i: int| 0 <= i < a.annotations@.len() implies (#[trigger] a.annotations@[i]).string@ == b.annotations@[i].string@ && a.annotations@[i].loc == b.annotations@[i].loc by {
+        assert(g.annotations@[i].string@ == a.annotations@[i].string@);
+    }
+}
+pub proof fn lemma_abs_roundtrip(a: Abstract, g: proto::Abstract, b: Abstract, lib: Library)
+    requires abs_exp(g, a, lib), abs_imp(b, g), table_ok(lib, LayerPurpose::Pin), table_ok(lib, LayerPurpose::Obstruction),
+    ensures abs_same(a, b),
+{
+    lemma_same_pts_eq(g.outline->0.vertices@, a.outline.points@, b.outline.points@);
+    assert forall|i: int| 0 <= i < a.ports@.len() implies (#[trigger] a.ports@[i]).net@ == b.ports@[i].net@ && map_same(a.ports@[i].shapes@, b.ports@[i].shapes@) by {
+        assert(port_exp(g.ports@[i], a.ports@[i], lib)); assert(port_imp(b.ports@[i], g.ports@[i]));
+        theorem_layer_map_roundtrip(g.ports@[i].shapes@, a.ports@[i].shapes@, b.ports@[i].shapes@, lib, LayerPurpose::Pin);
+    }
+    theorem_layer_map_roundtrip(g.blockages@, a.blockages@, b.blockages@, lib, LayerPurpose::Obstruction);
+}
+/// THEOREM (C14, first sentence): whatever `export` produced for `lib`, whatever `import_lib` then built from it (starting from an empty
+/// cell map, with the same layer table) has the library's name and units and, cell for cell along the export's dependency ordering,
+/// the same name, layout view (name, instances with name / target cell name / location / reflection / rotation, annotations) and
+/// abstract view (name, outline, ports with net and per-layer shapes, blockages per layer)
+pub proof fn theorem_roundtrip(lib: Library, g: proto::Library, lib2: Library, m0: CellMap, m1: CellMap)
+    requires lib_exp(g, lib), lib_imp(lib2, g, m0, m1), forall|x: Seq<char>| #[trigger] m0.lookup(x) is None, degrees_exact(),
+        table_ok(lib, LayerPurpose::Pin), table_ok(lib, LayerPurpose::Obstruction),
+    ensures lib2.name@ == lib.name@, lib2.units == lib.units,
+        exists|order: Seq<Ptr<Cell>>| is_dep_ordering(order, lib.cells@, |c: Ptr<Cell>| cell_deps(c)) && #[trigger] cells_same(order, lib2.cells@),
+{
+    let order = choose|order: Seq<Ptr<Cell>>| is_dep_ordering(order, lib.cells@, |c: Ptr<Cell>| cell_deps(c)) && #[trigger] cells_exp(g.cells@, order, lib);
+    let cs = lib2.cells@; let pc = g.cells@;
+    assert forall|i: int| 0 <= i < order.len() implies cell_same(*(#[trigger] order[i]).v, *cs[i].v) by {
+        assert(cell_exp(pc[i], *order[i].v, lib));
+        assert(cell_imported(cs, pc, m0, i));
+        let m = choose|m: CellMap| map_is(m, m0, pc, cs, i as nat) && #[trigger] cell_imp(*cs[i].v, pc[i], m);
+        if pc[i].layout is Some {
+            assert forall|j: int| 0 <= j < i implies (*(#[trigger] cs[j]).v).name@ == pc[j].name@ by { assert(cell_imported(cs, pc, m0, j)); }
+            lemma_layout_roundtrip((*order[i].v).layout->0, pc[i].layout->0, (*cs[i].v).layout->0, lib, m, m0, pc, cs, i as nat);
+        }
+        if pc[i].r#abstract is Some { lemma_abs_roundtrip((*order[i].v).abs->0, pc[i].r#abstract->0, (*cs[i].v).abs->0, lib); }
+    }
+    assert(cells_same(order, cs));
+}
+
+/// the converse direction for one abstract port — C14: "conversely a protobuf library whose cells are listed before their users converts
+/// to raw and back to an equal message".  Supported subset assumed: every layer message names a distinct layer whose (number, Pin-purpose
+/// number) the layer table maps back.  The net and the NUMBER of layer messages come back; their ORDER does not follow from the two
+/// converters' contracts — and is false of the real code: the raw data model keeps a port's shapes in a HashMap<LayerKey, Vec<Shape>> and
+/// the exporter follows its iteration order (known finding F15, native replay findings/F15_abstract_layer_order.rs)
+pub proof fn theorem_port_msg_roundtrip(g: proto::AbstractPort, p: AbstractPort, g2: proto::AbstractPort, lib: Library)
+    requires lmsgs_ok(g.shapes@), port_imp(p, g), port_exp(g2, p, lib), p.shapes@.dom().finite(),
+        forall|i: int, j: int| 0 <= i < j < g.shapes@.len() ==> lkey_of(#[trigger] g.shapes@[i]) != lkey_of(#[trigger] g.shapes@[j]),
+        forall|i: int| 0 <= i < g.shapes@.len() ==> nums(lib, lkey_of(#[trigger] g.shapes@[i]), LayerPurpose::Pin) is Some
+            && nums(lib, lkey_of(g.shapes@[i]), LayerPurpose::Pin)->Some_0.0 == g.shapes@[i].layer->0.number && nums(lib, lkey_of(g.shapes@[i]), LayerPurpose::Pin)->Some_0.1 == g.shapes@[i].layer->0.purpose,
+    ensures g2.net@ == g.net@,
+        g2.shapes@.len() == g.shapes@.len(),
+        forall|i: int| 0 <= i < g.shapes@.len() ==> (#[trigger] g2.shapes@[i]).layer == g.shapes@[i].layer,
+{
+    let m = p.shapes@; let gs = g.shapes@;
+    let keys = choose|keys: Seq<LayerKey>| #[trigger] entries_exp(g2.shapes@, keys, m, lib, LayerPurpose::Pin);
+    // the map has exactly one key per message (distinct layers)
+    let ks = Seq::new(gs.len(), |i: int| lkey_of(gs[i]));
+    assert(ks.no_duplicates());
+    ks.unique_seq_to_set();
+    assert(ks.to_set() =~= m.dom()) by {
+        assert forall|k: LayerKey| ks.to_set().contains(k) <==> m.dom().contains(k) by {
+            if ks.to_set().contains(k) { let i = choose|i: int| 0 <= i < ks.len() && ks[i] == k; assert(m.dom().contains(lkey_of(gs[i]))); }
+            if m.dom().contains(k) { let i = choose|i: int| 0 <= i < gs.len() && lkey_of(#[trigger] gs[i]) == k; assert(ks[i] == k); }
+        }
+    }
+}
+
+// vacuity canaries (each must FAIL: its hypotheses are satisfiable)
+proof fn canary_layer_map_rt(gs: Seq<proto::LayerShapes>, m: Map<LayerKey, Vec<Shape>>, m2: Map<LayerKey, Vec<Shape>>, lib: Library, p: LayerPurpose)
+    requires layer_map_exp(gs, m, lib, p), layer_map_imp(m2, gs, gs.len() as int), table_ok(lib, p), m.dom().finite(), gs.len() == 2, gs[0].rectangles@.len() == 1, gs[1].paths@.len() == 1,
+    ensures false {}
+proof fn canary_roundtrip(lib: Library, g: proto::Library, lib2: Library, m0: CellMap, m1: CellMap)
+    requires lib_exp(g, lib), lib_imp(lib2, g, m0, m1), forall|x: Seq<char>| #[trigger] m0.lookup(x) is None, degrees_exact(), table_ok(lib, LayerPurpose::Pin), table_ok(lib, LayerPurpose::Obstruction),
+        g.cells@.len() == 2, g.cells@[1].layout is Some, g.cells@[1].layout->0.instances@.len() == 1, g.cells@[1].r#abstract is Some, g.cells@[1].r#abstract->0.ports@.len() == 1,
+    ensures false {}
+proof fn canary_lib_exp(g: proto::Library, lib: Library) requires lib_exp(g, lib), lib_small(lib), lib.cells@.len() == 2, g.cells@[1].layout is Some, g.cells@[1].r#abstract is Some ensures false {}
+proof fn canary_lib_imp(lib: Library, plib: proto::Library, m0: CellMap, m1: CellMap) requires lib_imp(lib, plib, m0, m1), plib.cells@.len() == 2, plib.cells@[1].layout is Some, plib.cells@[1].r#abstract is Some, cell_msg_ok(plib.cells@[1]) ensures false {}
+proof fn canary_abs_exp(g: proto::Abstract, a: Abstract, lib: Library) requires abs_exp(g, a, lib), abs_small(a), a.ports@.len() == 1, a.ports@[0].shapes@.dom().len() == 2, a.blockages@.dom().len() == 1 ensures false {}
+proof fn canary_abs_imp(a: Abstract, g: proto::Abstract) requires abs_imp(a, g), abs_msg_ok(g), g.ports@.len() == 1, g.ports@[0].shapes@.len() == 2, lkey_of(g.ports@[0].shapes@[0]) != lkey_of(g.ports@[0].shapes@[1]) ensures false {}
 }
 fn main() {}
